@@ -211,6 +211,7 @@ theorem history_flagged_only_from_own (s : St) (ops : List Op) (ev : Ev)
     rcases hev with hev | hev
     · cases op with
       | configure g own => simp [step, presented] at hev
+      | bound jid => simp [step, presented] at hev
       | stanza o =>
         simp only [step, presented, List.flatMap_cons, List.flatMap_nil, List.append_nil] at hev
         refine ⟨[], o, ops, rfl, ?_, by simpa [run] using hev⟩
@@ -233,6 +234,7 @@ theorem history_unflagged_is_outer (s : St) (ops : List Op) (ev : Ev)
     rcases hev with hev | hev
     · cases op with
       | configure g own => simp [step, presented] at hev
+      | bound jid => simp [step, presented] at hev
       | stanza o =>
         simp only [step, presented, List.flatMap_cons, List.flatMap_nil, List.append_nil] at hev
         rcases presented_is_outer_or_own_carbon s.gen s.own o ev hev with ⟨h0, h1, _⟩ | ⟨_, h1, _⟩
@@ -240,6 +242,32 @@ theorem history_unflagged_is_outer (s : St) (ops : List Op) (ev : Ev)
         · rw [h1] at hf; cases hf
     · obtain ⟨o, ho, h0, h1⟩ := ih (step s op).1 hev
       exact ⟨o, by simp [ho], h0, h1⟩
+
+/-- **After a login the own account is the bare part of the JID the server bound** — and nothing else: whatever was
+configured before (an alias, a bare domain for anonymous login), whatever the resource looks like (it may contain `@`
+and further `/`), a wrapper is unwrapped afterwards only from `bareOf jid`. -/
+theorem bound_only_bare_of_bound_jid (s : St) (jid : String) (o : Outer) (ev : Ev)
+    (hev : ev ∈ presented (run s [.bound jid, .stanza o]).2) (hf : ev.msg.carbonForwarded = true) :
+    attrVal o.sender = bareOf jid := by
+  simp only [run, step, presented, List.nil_append, List.append_nil, List.flatMap_cons, List.flatMap_nil] at hev
+  rcases presented_is_outer_or_own_carbon s.gen (bareOf jid) o ev hev with ⟨_, _, h0⟩ | ⟨h1, _, _⟩
+  · rw [h0] at hf; cases hf
+  · exact h1
+
+/-- **The bare part is cut at the FIRST slash only**: for a bare JID `b` without `/` and ANY resource `r` (with `@`,
+with more slashes), `bareOf (b/r) = b`; a JID without slash is its own bare part. -/
+theorem bareOf_full (b r : String) (hb : '/' ∉ b.toList) : bareOf (b ++ "/" ++ r) = b := by
+  unfold bareOf
+  have h1 : (b ++ "/" ++ r).toList = b.toList ++ '/' :: r.toList := by
+    simp [String.toList_append, List.append_assoc]
+  rw [h1, takeWhile_noslash_append b.toList hb r.toList]
+  exact String.ofList_toList
+
+/-- …and a JID without any slash is its own bare part. -/
+theorem bareOf_bare (b : String) (hb : '/' ∉ b.toList) : bareOf b = b := by
+  unfold bareOf
+  rw [takeWhile_noslash b.toList hb]
+  exact String.ofList_toList
 
 /-! ### Non-vacuity: the hypotheses above are met by concrete, non-trivial stanzas. -/
 
@@ -293,6 +321,16 @@ example : presented (run init [.configure .v2 "a@b", .stanza (stanza (some "a@b"
     = [.handler (forwardedMsg juliet), .clientReceived (forwardedMsg juliet),
        .handler ⟨"o1", "a@b", "romeo@montague.example/home", "", "headline", false⟩,
        .clientReceived ⟨"o1", "a@b", "romeo@montague.example/home", "", "headline", false⟩] := by decide
+
+/-- logins: alias / anonymous / resource with `@` and `/` -/
+example : bareOf "romeo@montague.example/mobile@home.lan" = "romeo@montague.example" := by decide
+example : bareOf "romeo@montague.example/a/b@c/d" = "romeo@montague.example" := by decide
+example : presented (run init [.configure .v2 "r.montague@montague.example", .bound "romeo@montague.example/orchard",
+      .stanza (stanza (some "r.montague@montague.example") [carbon "sent" juliet]),
+      .stanza (stanza (some "romeo@montague.example") [carbon "sent" juliet])]).2
+    = [.handler ⟨"o1", "r.montague@montague.example", "romeo@montague.example/home", "", "headline", false⟩,
+       .clientReceived ⟨"o1", "r.montague@montague.example", "romeo@montague.example/home", "", "headline", false⟩,
+       .handler (forwardedMsg juliet), .clientReceived (forwardedMsg juliet)] := by decide
 
 end examples
 
